@@ -179,7 +179,12 @@ func WorkerMain() int {
 			break
 		}
 		seed := ScenarioSeed(base, id, i)
-		sc := p.Gen(NewRNG(seed), tier)
+		var sc any
+		if p.GenAt != nil {
+			sc = p.GenAt(i, NewRNG(seed), tier)
+		} else {
+			sc = p.Gen(NewRNG(seed), tier)
+		}
 		tr := &Trace{Keep: false}
 		res, herr := safeRun(p, sc, tr)
 		if herr != "" {
